@@ -256,6 +256,7 @@ def poolCls (res : String) : String :=
 def listStr (l : List String) : String := if l.isEmpty then "-" else ",".intercalate l
 
 def handle : Handler := fun input impl =>
+  if impl == "SKIPPED-AFTER-HANGS" then ("-", "skip:not-run-after-hangs") else
   if impl.startsWith "PANIC" || impl.startsWith "HANG" || impl.startsWith "BADINPUT" then
     ("-", s!"fail:crash:{impl.take 80}") else
   match parsePlan input with
